@@ -46,6 +46,13 @@ def prepare(tier):
 
 def generate(rng, tier):
     p = gen_world_params(rng, tier)
+    if rng.random() < 0.03:
+        # a zoom simulation: a chain of refinements down to level 26-30 onto a generic point (oct centres need more than
+        # 24 significant bits there)
+        nd = rng.choice([1, 1, 2])
+        p.update(ndim=nd, levelmin=rng.choice([1, 2]), levelmax=rng.choice([26, 28, 30]) if nd == 1 else 26, refine_p=0.05, maxcells=300,
+                 nboundary=0, ordering=rng.choice(["planar", "angular"]), bound_frac=None, bound_keys=None,
+                 chain=[round(rng.uniform(0.05, 0.95), 6) + 1.0 / 3e7 for _ in range(nd)], part=None, prune=[])
     case = {"world": p, "nout_arg": rng.choice(["explicit", "explicit", "minus1"]), "glob_seed": rng.getrandbits(32), "prior": None}
     # the full load must not depend on what the dataset object was used for before (C15's concern, exercised here too)
     if rng.random() < 0.2:
